@@ -1234,6 +1234,10 @@ Example ex_select_parse :
   = Val (GSelectS (ast_of_select ex_select), [Tk TyEOF ""]).
 Proof. vm_compute. reflexivity. Qed.
 Example ex_select_free : select_bare_alias_free ex_select = true. Proof. reflexivity. Qed.
+Example ex_select_lock_parse :
+  parse_statement_top tree_flags (render_select (fun _ _ => no_parens) ex_select_lock ++ [Tk TyEOF ""])
+  = Val (GSelectS (ast_of_select ex_select_lock), [Tk TyEOF ""]).
+Proof. vm_compute. reflexivity. Qed.
 
 (* ------------------------------------------------------------------------------------------------ *)
 (* set operations: a query is its first SELECT followed by (operator, ALL?, SELECT) steps, left-nested *)
